@@ -28,7 +28,10 @@ theorem C16_facts :
     Facts.enum_bpsec_CoseContext_AadScopeFlag_BTSD = (flagBtsd : Int) ∧
     ("CanonicalBlock", "BlockConfidentialityBlock", "bind_type", (typeBcb : Int)) ∈ Facts.binds ∧
     Facts.enum_admin_StatusReport_ReasonCode_FAILED_SEC = 15 ∧
-    Facts.enum_blocks_CanonicalBlock_Flag_REPLICATE_IN_FRAGMENT = 1 := by
+    Facts.enum_blocks_CanonicalBlock_Flag_REPLICATE_IN_FRAGMENT = 1 ∧
+    -- transmit chain: integrity is applied before confidentiality, both before fragmentation
+    ((Facts.chainSteps.filter (fun s => s.1 == "tx_chain" && decide (0 < s.2.1))).map (fun s => (s.2.1, s.2.2.2))) =
+      [(10, "_apply_bib"), (11, "_apply_bcb"), (20, "_create")] := by
   decide
 
 /-- The AEAD law assumed by the round-trip theorems. -/
